@@ -398,7 +398,15 @@ func (s *Spec) ParseSpecFile(path, pkgPath string) error {
 					return fail("assert@call callee expr")
 				}
 				callee := rest[:i]
+				site := 0 // callee#N: only the N-th call site of the callee in source order
+				if j := strings.Index(callee, "#"); j >= 0 {
+					fmt.Sscan(callee[j+1:], &site)
+					callee = callee[:j]
+				}
 				c, err := mkClause("assertcall", strings.TrimSpace(rest[i:]))
+				if c != nil {
+					c.Loop = site
+				}
 				if err != nil {
 					return err
 				}
